@@ -32,7 +32,18 @@ func uniqueCands(kids []any, prefix string, out *[]string) {
 func addUniques(r *Rng, kids []any) {
 	for _, k := range kids {
 		n := k.(map[string]any)
-		if cstr(n, "k") == "list" && r.Chance(50) {
+		if cstr(n, "k") == "list" && r.Chance(20) {
+			// a unique set over two leaves that can hold any string
+			m := tyMenus[4]
+			var u []any
+			for _, sfx := range []string{"ua", "ub"} {
+				nm := cstr(n, "n") + sfx
+				n["kids"] = append(carr(n, "kids"), map[string]any{"k": "leaf", "n": nm,
+					"type": map[string]any{"base": m.base, "levels": m.levels, "valid": toAny(m.valid), "invalid": toAny(m.invalid)}})
+				u = append(u, nm)
+			}
+			n["uniques"] = []any{u}
+		} else if cstr(n, "k") == "list" && r.Chance(50) {
 			var cands []string
 			uniqueCands(carr(n, "kids")[1:], "", &cands)
 			if len(cands) > 0 {
@@ -128,6 +139,87 @@ func genDataKids(r *Rng, kids []any, pInclude int) []any {
 	return out
 }
 
+// confuseUniques: where a unique set has two leaves of unrestricted string type, two entries sometimes get
+// tuples that differ in every leaf but look alike once written next to each other ("x·x","x" / "x","x·x"):
+// agreeing on a unique set means agreeing leaf by leaf
+func confuseUniques(r *Rng, schema []any, data []any) {
+	find := func(name string) map[string]any {
+		for _, d := range data {
+			if cstr(d.(map[string]any), "n") == name {
+				return d.(map[string]any)
+			}
+		}
+		return nil
+	}
+	var walk func(schema []any)
+	walk = func(schema []any) {
+		for _, k := range schema {
+			n := k.(map[string]any)
+			switch cstr(n, "k") {
+			case "choice", "case":
+				walk(carr(n, "kids"))
+			case "container":
+				if d := find(cstr(n, "n")); d != nil {
+					confuseUniques(r, carr(n, "kids"), carr(d, "kids"))
+				}
+			case "list":
+				d := find(cstr(n, "n"))
+				if d == nil {
+					continue
+				}
+				entries := carr(d, "kids")
+				for _, e := range entries {
+					confuseUniques(r, carr(n, "kids")[1:], carr(e.(map[string]any), "kids"))
+				}
+				if len(entries) < 2 {
+					continue
+				}
+				for _, uu := range carr(n, "uniques") {
+					u := uu.([]any)
+					ok := len(u) >= 2
+					for _, pth := range u {
+						var leaf map[string]any
+						for _, lk := range carr(n, "kids")[1:] {
+							if cstr(lk.(map[string]any), "n") == pth.(string) && cstr(lk.(map[string]any), "k") == "leaf" {
+								leaf = lk.(map[string]any)
+							}
+						}
+						if leaf == nil || cstr(cmap(leaf, "type"), "base") != "string" || carr(cmap(leaf, "type"), "valid")[0].(string) != "" {
+							ok = false
+						}
+					}
+					if !ok || !r.Chance(50) {
+						continue
+					}
+					set := func(e map[string]any, name, v string) {
+						ks := carr(e, "kids")
+						for _, lk := range ks {
+							if cstr(lk.(map[string]any), "n") == name {
+								lk.(map[string]any)["vals"] = []any{v}
+								return
+							}
+						}
+						e["kids"] = append(ks, map[string]any{"n": name, "vals": []any{v}})
+					}
+					e0, e1 := entries[0].(map[string]any), entries[1].(map[string]any)
+					for i, pth := range u {
+						a, b := "x", "x"
+						if i == 0 {
+							a = "x·x"
+						}
+						if i == 1 {
+							b = "x·x"
+						}
+						set(e0, pth.(string), a)
+						set(e1, pth.(string), b)
+					}
+				}
+			}
+		}
+	}
+	walk(schema)
+}
+
 func genYDataCase(r *Rng, tier string) Case {
 	g := &sgen{r: r, forData: true, maxDepth: 2 + r.Intn(2)}
 	if tier == "thorough" {
@@ -136,7 +228,9 @@ func genYDataCase(r *Rng, tier string) Case {
 	top := g.genKids(0, false)
 	addUniques(r, top)
 	p := pick(r, []int{30, 55, 80, 95})
-	data := map[string]any{"n": "root", "kids": genDataKids(r, top, p)}
+	dk := genDataKids(r, top, p)
+	confuseUniques(r, top, dk)
+	data := map[string]any{"n": "root", "kids": dk}
 	return Case{"k": "ydata", "top": top, "data": data}
 }
 
